@@ -13,12 +13,14 @@ use crate::oracle::xjson;
 pub enum Case {
     Lib(ScriptedCase),
     Cli { pre: Vec<String>, pos: Vec<String>, unwritable: bool },
+    /// the binary run with one system call on its output files made to fail
+    Fault { argv: Vec<String>, syscall: String, errno: String, when: u32 },
 }
 
 fn viol(what: &str, c: &Case, detail: Value) -> Violation {
     let site = match c {
         Case::Lib(_) => "optimise_state",
-        Case::Cli { .. } => "cli",
+        Case::Cli { .. } | Case::Fault { .. } => "cli",
     };
     Violation { kind: "c20.run".into(), signature: format!("{}:{}", site, what), case: serde_json::to_value(c).unwrap(), detail }
 }
@@ -386,6 +388,19 @@ pub fn check_cli_faults(exe: &std::path::Path, tag: &str, st: &mut Stats) {
         for sys in ["openat", "write", "close"].iter() {
             for when in 1..=2u32 {
                 for errno in ["ENOSPC", "EIO", "EACCES", "EINTR"].iter() {
+                    check_one_fault(exe, tag, ai, &argv.iter().map(|s| s.to_string()).collect::<Vec<_>>(), sys, errno, when, st);
+                }
+            }
+        }
+    }
+}
+
+pub fn check_one_fault(exe: &std::path::Path, tag: &str, ai: usize, argv: &[String], sys: &str, errno: &str, when: u32, st: &mut Stats) {
+    let dir = cli::scratch_dir();
+    {
+        {
+            {
+                {
                     st.eval();
                     let base = dir.join(format!("{}-fi-{}-{}-{}-{}-{}", tag, std::process::id(), ai, sys, when, errno));
                     let json_p = base.with_extension("json");
@@ -403,11 +418,11 @@ pub fn check_cli_faults(exe: &std::path::Path, tag: &str, st: &mut Stats) {
                         Ok(o) => o,
                         Err(_) => {
                             st.count("fault_enumeration_run_failed_to_start");
-                            continue;
+                            return;
                         }
                     };
                     let stderr = String::from_utf8_lossy(&out.stderr).to_string();
-                    let c = Case::Cli { pre: vec![format!("<fault: {} #{} fails with {}>", sys, when, errno)], pos: argv.iter().map(|s| s.to_string()).collect(), unwritable: false };
+                    let c = Case::Fault { argv: argv.to_vec(), syscall: sys.to_string(), errno: errno.to_string(), when };
                     st.nontrivial(hash_str(&format!("{}{}{}{}", ai, sys, when, errno)));
                     st.count(&format!("fault_points[{}#{}]", sys, when));
                     use std::os::unix::process::ExitStatusExt;
@@ -571,6 +586,11 @@ pub fn replay(ctx: &Ctx, case: &Value) {
         Ok(Case::Cli { pre, pos, unwritable }) => {
             if let Some(exe) = ctx.args.cli.clone() {
                 check_cli(&exe, "c20-replay", &pre, &pos, unwritable, &mut st)
+            }
+        }
+        Ok(Case::Fault { argv, syscall, errno, when }) => {
+            if let Some(exe) = ctx.args.cli.clone() {
+                check_one_fault(&exe, "c20-replay", 0, &argv, &syscall, &errno, when, &mut st)
             }
         }
         Err(_) => {}
